@@ -415,7 +415,7 @@ def query_args(N):
     return dict(bits=("0000", "1010", "0111"), keep=((1,), (3, 0), (1, 2)), where=((0,), (3, 1), (0, 2)), marg=((3,), (2, 0)))
 
 
-def query_goals(mk, circ, v, N, tag, full=True):
+def query_goals(mk, circ, v, N, tag, full=True, otag=""):
     """all value queries of a circuit holding the reference state v (simplification passes are
     switched off here: their value-dependent structure detection is the subject of C04)"""
     kw = NOSIMP if isinstance(circ, qtn.Circuit) else {}
@@ -432,7 +432,7 @@ def query_goals(mk, circ, v, N, tag, full=True):
         rho = np.asarray(circ.partial_trace(keep, **kw))
         mk.eq(f"{tag}: partial_trace({keep}) == dense reduced state (sites in the requested order)", rho, want.reshape(rho.shape))
     for where in qa["where"]:
-        nm = f"O{len(where)}" if N == 3 else "O" + "".join(map(str, where))
+        nm = (f"O{len(where)}" if N == 3 else "O" + "".join(map(str, where))) + otag
         O = mk.array(nm, (2 ** len(where),) * 2, "cplx")
         want = ref_expect(v, N, O, where)
         mk.eq(f"{tag}: local_expectation(O, {where}) == <psi|O|psi>", circ.local_expectation(O, where, **kw), want)
@@ -469,7 +469,7 @@ def _has_sym_2q(prog):
 _SP = []
 for key in PROGRAMS:
     for cfg in _EXACT_CFG:
-        quick = cfg in ("lazy", "default") or key in ("bell+ry", "swap-iden")
+        quick = cfg in ("lazy", "default") or key in ("bell+ry", "swap-iden", "perm-swap01")
         _SP.append({"sim": "Circuit", "cfg": cfg, "prog": key, "_tiers": ("quick", "thorough") if quick else ("thorough",)})
     _SP.append({"sim": "CircuitDense", "cfg": "-", "prog": key})
 
@@ -513,19 +513,44 @@ def exact_simulators(mk, sim, cfg, prog):
         mk.raises("CircuitDense has no unitary network", lambda: circ.get_uni(), (NotImplementedError,))
 
 
+_MPS_SIMS = ("CircuitMPS", "CircuitPermMPS")
 _MP = [{"sim": s, "prog": k, "q": q,
         "_tiers": ("quick", "thorough") if (k in ("bell+ry", "swap-iden") and q == "state") else ("thorough",),
         "_mandatory": k in ("bell+ry", "swap-iden") and q == "state"}
-       for s in ("CircuitMPS", "CircuitPermMPS") for k in PROGRAMS for q in ("state", "expec")]
+       for s in _MPS_SIMS for k in PROGRAMS if k not in _NEW_PROGS for q in ("state", "expec")]
+# query kinds decided against the *held* state (see mps_simulators): every program x class; quick for the
+# programs with complex amplitudes / permuted site order and one older program
+_MPQ = ("rdm", "expect", "marginal")
+_MP += [{"sim": s, "prog": k, "q": "state", "_tiers": ("quick", "thorough"), "_mandatory": True} for s in _MPS_SIMS for k in _NEW_PROGS]
+_MP += [{"sim": s, "prog": k, "q": q,
+         "_tiers": ("quick", "thorough") if k in _NEW_PROGS + ("swap-iden",) else ("thorough",), "_mandatory": True}
+        for s in _MPS_SIMS for k in PROGRAMS for q in _MPQ]
+
+
+def mps_query_args(N):
+    """one- and two-site arguments in both orders (and a bare integer), adjacent and non-adjacent"""
+    if N == 3:
+        return dict(keep=(1, (0,), (0, 1), (1, 0), (2, 0), (0, 2)), where=(1, (2,), (0, 1), (1, 0), (2, 0), (0, 2)),
+                    # (where, fix, decided symbolically?)
+                    marg=(((1,), None, True), ((2, 0), None, True), ((0, 1, 2), None, True), ((2, 1), {0: "0"}, True),
+                          ((1,), {0: "1", 2: "0"}, True), ((1,), {0: "1"}, False)))
+    return dict(keep=(3, (1, 2), (2, 1), (3, 0), (0, 3), (1, 3)), where=(0, (3,), (1, 2), (2, 1), (3, 0), (0, 2)),
+                marg=(((3,), None, True), ((2, 0), None, True), ((1, 3), {0: "1", 2: "0"}, True), ((2,), {3: "0"}, False)))
 
 
 @obligation(PROP, params=_MP, rounds=2, timeout_s=500, wall_s=400, max_rows=80000)
 def mps_simulators(mk, sim, prog, q):
     """CircuitMPS / CircuitPermMPS (no truncation): supported gates give the reference state; a
-    gate the class does not support must be rejected (raise), never applied wrongly"""
+    gate the class does not support must be rejected (raise), never applied wrongly.
+
+    q = state / expec: dense state, amplitudes, one local expectation against the reference.
+    q = rdm / expect / marginal: (1) to_dense() == reference state, (2) the query == the same quantity
+    computed (qv.ref, explicit loops) from the dense state the object holds.  (1) and (2) give
+    query == reference value; stating (2) on the held state keeps the certificate degree low (the
+    quadratic queries need the isometry contracts of the canonical form, not the whole history)."""
     mk.encodes(cmps.CircuitMPS, cmps.CircuitPermMPS, cmps.CircuitMPS.to_dense, cmps.CircuitMPS.amplitude,
                cmps.CircuitMPS.local_expectation, cmps.CircuitMPS.partial_trace, cmps.CircuitPermMPS.get_psi, G.apply_swap)
-    N = 3
+    N = PROG_N.get(prog, 3)
     p = build_program(mk, prog, kind="real")
     stubs.OPTIONS["svd_positive"] = False
     try:
@@ -544,15 +569,59 @@ def mps_simulators(mk, sim, prog, q):
         if q == "state":
             dense = np.asarray(circ.to_dense()).reshape(-1)
             mk.eq(f"{sim}: to_dense() == reference state of the applied gates", dense, v)
-            for b in ("000", "110"):
+            for b in (("000", "110") if N == 3 else ("0000", "1101", "0110")):
                 mk.eq(f"{sim}: amplitude('{b}')", circ.amplitude(b), v[int(b, 2)])
             return
-        O = mk.array("O1", (2, 2), "real")
-        M = ref.embed(O, [2] * N, (1,))
-        want = 0
-        for x, y in zip(_conj(v), ref.matmul(M, v)):
-            want = want + x * y
-        mk.eq(f"{sim}: local_expectation(O, 1) == <psi|O|psi>", circ.local_expectation(O, (1,)), want)
+        if q == "expec":
+            O = mk.array("O1", (2, 2), "real")
+            M = ref.embed(O, [2] * N, (1,))
+            want = 0
+            for x, y in zip(_conj(v), ref.matmul(M, v)):
+                want = want + x * y
+            mk.eq(f"{sim}: local_expectation(O, 1) == <psi|O|psi>", circ.local_expectation(O, (1,)), want)
+            return
+        mk.encodes(cmps.CircuitMPS.compute_marginal, cmps.CircuitPermMPS.local_expectation, cmps.CircuitPermMPS._apply_gate)
+        held = np.asarray(circ.to_dense()).reshape(-1)
+        mk.eq(f"{sim}: to_dense() == reference state of the applied gates", held, v)
+        qa = mps_query_args(N)
+        # in the numeric runs the queries are also compared with the reference state directly
+        targets = [("the held state", held)] + ([] if mk.sym else [("the reference state", v)])
+        if q == "rdm":
+            for keep in qa["keep"]:
+                kt = (keep,) if isinstance(keep, int) else keep
+                rho = np.asarray(circ.partial_trace(keep))
+                mk.same(f"{sim}: partial_trace({keep}) shape", rho.shape, (2 ** len(kt),) * 2)
+                for nm, vv in targets:
+                    mk.eq(f"{sim}: partial_trace({keep}) == reduced density matrix of {nm} (sites in the requested order)",
+                          rho, ref_rdm(vv, N, kt))
+        elif q == "expect":
+            for where in qa["where"]:
+                wt = (where,) if isinstance(where, int) else where
+                O = mk.array("O" + "".join(map(str, wt)), (2 ** len(wt),) * 2, "cplx")
+                got = circ.local_expectation(O, where)
+                # the call moves the orthogonality centre in place: the held state must not change, and the
+                # value is <psi|O|psi> of it (stated on the re-canonised tensors: low certificate degree)
+                post = np.asarray(circ.to_dense()).reshape(-1)
+                mk.eq(f"{sim}: to_dense() after local_expectation(O, {where}) == reference state", post, v)
+                mk.eq(f"{sim}: local_expectation(O, {where}) == <psi|O|psi> of the held state", got, ref_expect(post, N, O, wt))
+                if not mk.sym:
+                    mk.eq(f"{sim}: local_expectation(O, {where}) == <psi|O|psi> of the reference state", got, ref_expect(v, N, O, wt))
+            mk.eq(f"{sim}: amplitude after the local_expectation calls", circ.amplitude("1" * N), v[2 ** N - 1])
+        elif q == "marginal":
+            for where, fix, symbolic in qa["marg"]:
+                if mk.sym and not symbolic:
+                    # abs(.) / nfact of a complex-symbol expression needs a sign decision the engine cannot make:
+                    # this argument combination runs in the numeric cross-run / replays only
+                    continue
+                m = np.asarray(circ.compute_marginal(where, fix=fix))
+                for nm, vv in targets:
+                    want = ref_marginal(vv, N, where, fix)
+                    if mk.sym:
+                        # the library returns abs(.) of the contracted value: compare squares
+                        mk.eq(f"{sim}: compute_marginal({where}, fix={fix})**2 == (marginal probabilities of {nm})**2",
+                              m ** 2, want * want)
+                    else:
+                        mk.eq(f"{sim}: compute_marginal({where}, fix={fix}) == marginal probabilities of {nm}", m, want)
     finally:
         stubs.OPTIONS["svd_positive"] = True
 
